@@ -44,7 +44,13 @@ static uint16_t rnd_seq(Rng &r) { return r.chance(0.5) ? (uint16_t)r.pickl({1, 2
 // time differences around the widths a narrowed type would wrap at (seconds or milliseconds)
 static int64_t big_jump(Rng &r) { static const int K[] = {15, 16, 31, 32}; int64_t b = (int64_t)1 << K[r.below(4)]; return b * r.range(1, 2) + r.range(-2, 2); }
 static uint32_t rnd_dt(Rng &r) { return r.chance(0.7) ? (uint32_t)r.range(0, 40) : (uint32_t)r.range(0, 1200); }
-static int rnd_bridge(Rng &r, int sid) { return r.chance(0.25) ? (sid + 1 + (int)r.below(3)) % 6 : -1; }
+// Ethernet source of a request: the sender itself (-1), another station acting as bridge, or - rarely - the first interface's own
+// address (a reflecting switch / our own bridge port) or a one-byte neighbour of it
+static int rnd_bridge(Rng &r, int sid) {
+    if (!r.chance(0.25)) return -1;
+    if (r.chance(0.08)) return r.chance(0.5) ? 100 : 300 + (int)r.below(6);
+    return (sid + 1 + (int)r.below(3)) % 6;
+}
 
 static Op op_discover(Rng &r, int sid, int tos) {
     return mk(OP_DISCOVER, rnd_dt(r), {sid, rnd_bridge(r, sid), tos, rnd_gen(r), r.chance(0.2) ? 0 : (int64_t)rnd_seq(r), 0, 0, 0});
@@ -180,6 +186,20 @@ static Plan gen_C02(uint64_t seed, Rng &r) {
         p.nodes.push_back(n);
     }
     p.family = (int)r.below(3);
+    if (r.chance(0.03)) { // the record of observations filled to (and past) the bound C19 allows it, then drained by Queries to its end
+        p.family = 6;
+        p.nodes.resize(1);
+        if (r.chance(0.7)) p.nodes[0].mtu = (uint32_t)r.pickl({1500, 1500, 4096, 9216});
+        int mp = (int)r.below(3);
+        p.ops.push_back(mk(OP_DISCOVER, 5, {mp, -1, 0, rnd_gen(r), rnd_seq(r), 0, 0, 0}));
+        int64_t total = r.pickl({1023, 1024, 1025, 1026, 1030, 1100, 511, 512, 513, 2047, 2048, 2049}), base = 30000;
+        while (total > 0) { int64_t c = std::min(total, r.range(200, 1100)); p.ops.push_back(mk(OP_FLOOD, (uint32_t)r.range(0, 20), {c, base, 0, 0, 0})); base += c; total -= c; }
+        p.ops.push_back(mk(OP_QUERY, 20, {mp, -1, 0, rnd_seq(r), 120}));
+        p.ops.push_back(mk(OP_FLOOD, 400, {r.range(1, 5), base, 0, 0, 0}));
+        p.ops.push_back(mk(OP_QUERY, 20, {mp, -1, 0, rnd_seq(r), 5}));
+        p.tail_ms = 600;
+        return p;
+    }
     Mix m;
     double frate = 0.1;
     if (p.family == 1) { m.raw = 8; m.stray = 10; frate = 0.5; }
